@@ -23,10 +23,19 @@ var tunnelPrefixes = []string{"tunnox-core/internal/client/tunnel.", "tunnox-cor
 
 type notifyClient struct {
 	calls atomic.Int32
+	fail  bool // the control connection is down: sending the notification fails
+	slow  bool // sending takes ~30us
 }
 
 func (c *notifyClient) SendTunnelCloseNotify(targetClientID int64, tunnelID, mappingID, reason string) error {
 	c.calls.Add(1)
+	if c.slow {
+		for t := nowNS(); nowNS()-t < 30000; {
+		}
+	}
+	if c.fail {
+		return errInjected
+	}
 	return nil
 }
 
@@ -38,7 +47,8 @@ func genTunnel(t *rapid.T) Round {
 	r.Paths = drawPaths(t, tunnelPaths, 3)
 	r.P["variant"] = rapid.IntRange(0, 1).Draw(t, "role") // 0 listen (notifies peer), 1 target
 	r.P["bytes"] = rapid.SampledFrom([]int{0, 1, 700, 40000}).Draw(t, "bytes")
-	r.P["reasons"] = rapid.IntRange(0, 3).Draw(t, "reasons") // 0: all closers use distinct reasons, 1: all Normal, 2: all PeerClosed, 3: via manager.CloseTunnel
+	r.P["reasons"] = rapid.IntRange(0, 3).Draw(t, "reasons")                               // 0: all closers use distinct reasons, 1: all Normal, 2: all PeerClosed, 3: via manager.CloseTunnel
+	r.P["notifyFault"] = rapid.SampledFrom([]int{0, 0, 1, 1, 2, 3}).Draw(t, "notifyFault") // bit 1: SendTunnelCloseNotify fails (control connection down), bit 2: it is slow
 	r.P["udp"] = 0
 	if rapid.IntRange(0, 5).Draw(t, "udp") == 0 {
 		// protocol "udp": Tunnel.runDataCopy uses iocopy.UDP (length-prefixed datagrams, batch
@@ -90,7 +100,7 @@ func runTunnel(r Round) *outcome {
 		o.skipped = true
 		return o
 	}
-	client := &notifyClient{}
+	client := &notifyClient{fail: r.p("notifyFault")&1 != 0, slow: r.p("notifyFault")&2 != 0}
 	var onClosed counter
 	var tnRef atomic.Pointer[ctunnel.Tunnel]
 	var statSent, statRecv atomic.Int64
@@ -243,7 +253,7 @@ func runTunnel(r Round) *outcome {
 	// peer notification: a cleanup action of the component itself; at most one, and only for a
 	// Listen-role tunnel
 	if n := int(client.calls.Load()); n > 1 {
-		o.failf("C16/client-tunnel/close-notify-sent-"+times(n), "SendTunnelCloseNotify called %d times for one tunnel", n)
+		o.failf("C16/client-tunnel/close-notify-sent-"+times(n), "SendTunnelCloseNotify called %d times for one tunnel (notifier fault mode %d: bit 1 = the call fails)", n, r.p("notifyFault"))
 	} else if n == 1 && role != ctunnel.TunnelRoleListen {
 		o.failf("C16/client-tunnel/close-notify-from-target-role", "target-role tunnel sent a close notification")
 	}
